@@ -1,5 +1,10 @@
 import os
-SOLVER = os.environ.get("C08_SOLVER", "kissat")
+SOLVER = os.environ.get("C08_SOLVER", "cadical")
+# Term-level back end for the deep kernels: plain cvc5 (bit-vector theory, NOT the driver's bv-as-int shim; int-blasting
+# cannot produce the models the reachability witnesses need).  Both sides of a "KS:"/"E2E:" equality become the same
+# term after cvc5's substitution of the SSA definitions, which a SAT miter of two 20-round circuits never achieves
+# [measured: 8 rounds 170 s kissat, 20 rounds no verdict; cvc5 2 s].
+CVC5BV = {"solver": "cvc5", "flags": ["--external-smt2-solver", "/usr/bin/cvc5"]}
 
 META = {"bounds": "", "outside": "", "assumptions": []}
 
@@ -21,7 +26,7 @@ def kern_jobs(tier):
                                          rounds, {8: "aligned8", 4: "aligned4", 0: "unaligned"}[var],
                                          {0: "separate", 1: "in place", 2: "NULL"}[sm], os_, od)}
                     nm = "kern-r%d-v%d-s%d-o%d%d" % (rounds, var, sm, os_, od)
-                    out.append(dict(base, name=nm + "-ks", solver="cvc5", prop_include="KS:",
+                    out.append(dict(base, name=nm + "-ks", prop_include="KS:", **CVC5BV,
                                     desc="key stream words left in ctx->x == RFC 8439-order reference rounds(state)+state"))
                     out.append(dict(base, name=nm + "-xor", solver=SOLVER, prop_exclude="KS:",
                                     desc="dst == src ^ LE(ctx->x) (or LE(ctx->x) for src==NULL); 64-bit counter +1 with carry; other "
